@@ -237,8 +237,72 @@ def product(xs: List[Any]) -> Any:
 PRIMES = [7, 11, 13, 17, 19, 23, 29, 31, 37, 41, 43, 47, 53, 59, 61, 67, 71, 73, 79, 83]
 
 
+FINITE_DOMAINS: Dict[Any, Any] = {}  # symbol -> iterable of all its values (set by a rule)
+
+
+def _finite_assignments(syms: Any, limit: int = 6000):
+    import itertools
+
+    syms = list(syms)
+    if not syms or any(s not in FINITE_DOMAINS for s in syms):
+        return None
+    doms = [list(FINITE_DOMAINS[s]) for s in syms]
+    n = 1
+    for d in doms:
+        n *= len(d)
+    if n > limit:
+        return None
+    return [dict(zip(syms, vals)) for vals in itertools.product(*doms)]
+
+
+def finite_equal(x: Any, y: Any) -> Optional[bool]:
+    """Exhaustive exact comparison when every free symbol has a declared finite domain."""
+    x, y = sp.sympify(x), sp.sympify(y)
+    asg = _finite_assignments(sorted(x.free_symbols | y.free_symbols, key=lambda s: s.name))
+    if asg is None:
+        return None
+    for m in asg:
+        try:
+            if sp.simplify(x.subs(m) - y.subs(m)) != 0:
+                return False
+        except Exception:
+            return None
+    return True
+
+
+def guards_equivalent(g1: Any, g2: Any) -> Optional[bool]:
+    """Same truth table over the declared finite domains (guards are conjunctions)."""
+    conds = [c for c, _ in g1] + [c for c, _ in g2]
+    syms = set()
+    for c in conds:
+        if not isinstance(c, sp.Basic):
+            return None
+        syms |= c.free_symbols
+    asg = _finite_assignments(sorted(syms, key=lambda s: s.name))
+    if asg is None:
+        return None
+
+    def val(g, m):
+        return all(bool(c.subs(m)) == pol for c, pol in g)
+
+    try:
+        return all(val(g1, m) == val(g2, m) for m in asg)
+    except Exception:
+        return None
+
+
 def expr_equal(a: Any, b: Any) -> Optional[bool]:
     """True / False / None(undecided) for closed-form scalar expressions."""
+    r = _expr_equal(a, b)
+    if r is None and FINITE_DOMAINS and not isinstance(a, (T, Unknown, Gamma)) and not isinstance(b, (T, Unknown, Gamma)):
+        try:
+            return finite_equal(a, b)
+        except Exception:
+            return None
+    return r
+
+
+def _expr_equal(a: Any, b: Any) -> Optional[bool]:
     if isinstance(a, (T, Unknown, Gamma)) or isinstance(b, (T, Unknown, Gamma)):
         if isinstance(a, T) and isinstance(b, T):
             return True if normalize(a) == normalize(b) else None
